@@ -10,7 +10,33 @@ def conn_streams(quick_n, thorough_n, extra=()):
     return f
 
 
+BUFIO_TB = "bufio.Reader is modelled (lean/Varlink/Frame.lean), validated against the real package by the ctxio stream of every run"
+
+
+def streams(*specs):
+    """specs: (sub, quick_n, thorough_n, extra args...)"""
+    def f(tier):
+        out = []
+        for sp in specs:
+            sub, q, t = sp[0], sp[1], sp[2]
+            out.append((sub, ["-n", str(q if tier == "quick" else t)] + list(sp[3:])))
+        return out
+    return f
+
+
 PROPS = {
+    "C12": {
+        "streams": conn_streams(3000, 60000),
+        "rule": "handler scripts issuing error replies with names from a grammar with near-misses of the reserved namespace x JSON parameters (incl. none); non-trivial = at least 2 calls or a script with at least 2 actions",
+        "trusted_base": [JSON_TB],
+        "assumptions": [],
+    },
+    "C18": {
+        "streams": streams(("ctxio", 4000, 100000)),
+        "rule": "random byte streams (empty frames, frames > 4096 bytes, payload without NUL) x segmentations (one segment, byte-wise, at NULs, random) x interleavings of frame reads and raw reads of sizes 1..10000; non-trivial = at least 2 segments or 2 frames and at least one operation",
+        "trusted_base": [BUFIO_TB, "the go/ast extractor that reports which object each read primitive uses"],
+        "assumptions": ["net.Conn.Read never returns (0, nil)"],
+    },
     "C01": {
         "streams": conn_streams(3000, 60000),
         "rule": "random registry x sequence of 0-25 request frames (valid calls with scripted handler behaviour carried in the parameters, built-in calls, malformed frames) x segmentation; non-trivial = at least 2 calls on the connection or a handler script with at least 2 actions",
